@@ -1,0 +1,7 @@
+//go:build !verif
+
+package scanner
+
+type verifState struct{}
+
+func (*Scanner) verifStep(byte) {}
